@@ -752,6 +752,8 @@ Definition out_eqb_simple (a b : out) : bool :=
   | OErr x, OErr y => eclass_eqb x y
   | OBytes x, OBytes y => list_eqb N.eqb x y
   | ONum x, ONum y => Z.eqb x y
+  | OPath x, OPath y => path_eqb x y
+  | ODir x, ODir y => list_eqb (pair_eqb String.eqb kind_eqb) x y
   | OInfo k p sz u g t, OInfo k' p' sz' u' g' t' => kind_eqb k k' && N.eqb p p' && N.eqb sz sz' && Z.eqb u u' && Z.eqb g g'
   | _, _ => false
   end.
@@ -771,6 +773,71 @@ Example c17_tarentry_demo_reads :
       ONum 1%Z; OOk; OOk; OBytes [7; 8]%N; OErr ENotExist ] /\
   tar_agrees tinit c17_tarentry_demo = true.
 Proof. vm_compute. split; reflexivity. Qed.
+
+(* ---- directory, symbolic-link and hard-link headers (WriteHeader of tar.TypeDir / TypeSymlink /
+   TypeLink; replayed on the real tarfs: stage tarentry, scenarios dir-headers, symlink-headers,
+   hardlink-headers) ----
+   A hard-link header is Link on the tree with the entry and opener tables untouched — the new name
+   is the same inode, with the same package entry — and inside Link's envelope it is the
+   reference's Link ([inst_out]: "installed" for OOk). *)
+Theorem c17_tarentry_writeheader_link_is_link : forall ts old new,
+  let s := t_base ts in
+  tstep ts (TWriteHeaderLink old new) =
+    (mkT (fst (model_step TarFS s (Link old new))) (t_te ts) (t_rc ts), inst_out (snd (model_step TarFS s (Link old new)))) /\
+  (E TarFS s (Link old new) = true ->
+   tstep ts (TWriteHeaderLink old new) =
+     (mkT (fst (spec_step s (Link old new))) (t_te ts) (t_rc ts), inst_out (snd (spec_step s (Link old new))))).
+Proof. exact writeheader_link_is_link. Qed.
+Print Assumptions c17_tarentry_writeheader_link_is_link.
+
+(* a directory header: inside the envelopes of MkdirAll and of Chtimes it is the reference's
+   mkdir -p followed by the reference's Chtimes (whose error, if any, is the answer); when mkdir -p
+   fails that failure is the answer and what it made stays (as for mkdir -p) *)
+Theorem c17_tarentry_writeheader_dir : forall ts p perm t,
+  let s := t_base ts in
+  E TarFS s (MkdirAll p perm) = true ->
+  let s1 := fst (spec_step s (MkdirAll p perm)) in
+  (snd (spec_step s (MkdirAll p perm)) = OOk -> E TarFS s1 (Chtimes p t) = true ->
+   tstep ts (TWriteHeaderDir p perm t) =
+     (mkT (fst (spec_step s1 (Chtimes p t))) (t_te ts) (t_rc ts), inst_out (snd (spec_step s1 (Chtimes p t))))) /\
+  (snd (spec_step s (MkdirAll p perm)) <> OOk ->
+   tstep ts (TWriteHeaderDir p perm t) = (mkT s1 (t_te ts) (t_rc ts), snd (spec_step s (MkdirAll p perm)))).
+Proof. exact writeheader_dir_is_mkdirall_chtimes. Qed.
+Print Assumptions c17_tarentry_writeheader_dir.
+
+(* a link header under a fresh name in the root directory, in EVERY state: the link carries the
+   header's target (any target), Readlink reads it back, and delivering the same header again is
+   "not installed" and changes nothing *)
+Theorem c17_tarentry_symlink_after_writeheader : forall ts nm tgt cid,
+  let s := t_base ts in
+  clean_name nm = true -> is_dir (heap s) 0 = true -> lookup nm (n_children (get (heap s) 0)) = None ->
+  let ts' := fst (tstep ts (TWriteHeaderSym [nm] tgt cid)) in
+  snd (tstep ts (TWriteHeaderSym [nm] tgt cid)) = ONum 1%Z /\
+  snd (tstep ts' (TOp (Readlink [nm]))) = OPath tgt /\
+  tstep ts' (TWriteHeaderSym [nm] tgt cid) = (ts', ONum 0%Z).
+Proof. exact symlink_after_writeheader. Qed.
+Print Assumptions c17_tarentry_symlink_after_writeheader.
+
+(* non-vacuity and the shape of a small package: a directory, a file in it, a link to the file, a
+   hard link to it; the hard link shares the package's bytes before and after a write; every FullFS
+   step agrees with the reference on the plain filesystem *)
+Definition c17_tarentry_headers_demo : list top :=
+  [ TWriteHeaderDir ["usr"; "bin"] 493%N 1000000%Z; TOp (Stat ["usr"; "bin"]); TWriteHeader ["usr"; "bin"; "tool"] [1; 2; 3]%N 493%N;
+    TWriteHeaderSym ["usr"; "bin"; "t"] ["tool"] [116; 111; 111; 108]%N; TOp (ReadFile ["usr"; "bin"; "t"]); TOp (Readlink ["usr"; "bin"; "t"]);
+    TWriteHeaderSym ["usr"; "bin"; "t"] ["tool"] [116; 111; 111; 108]%N;
+    TWriteHeaderLink ["usr"; "bin"; "tool"] ["usr"; "bin"; "tool2"]; TOp (ReadFile ["usr"; "bin"; "tool2"]); TOp (Stat ["usr"; "bin"; "tool2"]);
+    TOp (WriteFile ["usr"; "bin"; "tool2"] [9]%N 493%N); TOp (ReadFile ["usr"; "bin"; "tool"]);
+    TWriteHeaderLink ["nope"] ["x"]; TWriteHeaderDir ["usr"; "bin"; "tool"; "sub"] 493%N 5%Z; TOp (ReadDir ["usr"; "bin"]) ].
+Example c17_tarentry_headers_demo_run :
+  snd (trun tinit c17_tarentry_headers_demo) =
+    [ ONum 1%Z; OInfo KDir 493%N 0%N 0%Z 0%Z (Some 1000000%Z); ONum 1%Z; ONum 1%Z; OBytes [1; 2; 3]%N; OPath ["tool"]; ONum 0%Z;
+      ONum 1%Z; OBytes [1; 2; 3]%N; OInfo KReg 493%N 3%N 0%Z 0%Z None; OOk; OBytes [9]%N;
+      OErr ENotExist; OErr EOther; ODir [("t", KSym); ("tool", KReg); ("tool2", KReg)] ] /\
+  tar_agrees tinit c17_tarentry_headers_demo = true /\
+  E TarFS (t_base (fst (trun tinit [TWriteHeaderDir ["usr"; "bin"] 493%N 1000000%Z; TWriteHeader ["usr"; "bin"; "tool"] [1; 2; 3]%N 493%N])))
+    (Link ["usr"; "bin"; "tool"] ["usr"; "bin"; "tool2"]) = true /\
+  E TarFS init_st (MkdirAll ["usr"; "bin"] 493%N) = true.
+Proof. vm_compute. repeat split; reflexivity. Qed.
 
 (* the channel's own corner (finding C17-F24; replayed: tarentry scenarios
    readonly-handle-stale-after-write, readonly-trunc-handle, readonly-handle-no-seek):
